@@ -94,8 +94,12 @@ def check_case(case):
     Y = np.array(case["Y"], dtype=int)
     with tempfile.TemporaryDirectory(prefix="c10-") as tmp:
         path = os.path.join(tmp, "dist." + case["ext"])
+        if len(data) >= 2 and case["I_train"][0] % 2 == 0:
+            # the path is written twice (first with other data of the same size): the file must describe the LAST call
+            libcall(g.pre_compute_distance, data[::-1].copy() * 2.0, path, name)
         libcall(g.pre_compute_distance, data.copy(), path, name)
         A = _build(cls, case, pre_computed_distance=path)
+        C = _build(cls, case, pre_computed_distance=path)
     require(A.pre_distances is not None and np.asarray(A.pre_distances).shape == (len(data), len(data)), "file:shape", "loaded matrix shape %r for %d samples" % (getattr(A.pre_distances, "shape", None), len(data)))
     loaded = np.asarray(A.pre_distances)
     for i in range(len(data)):
@@ -127,6 +131,17 @@ def check_case(case):
         ta = [list(map(int, v)) for v in pa] if isinstance(pa, tuple) else [int(v) for v in pa]
         tb = [list(map(int, v)) for v in pb] if isinstance(pb, tuple) else [int(v) for v in pb]
         require(ta == tb, "same_predictions", lambda: "%s/%s: pre-computed %r vs on-the-fly %r (I_train=%r I_test=%r)" % (case["model"], name, ta, tb, It, Iq))
+    # a model built with the file whose use is switched off through the public attribute computes the metric on the fly again
+    if case["model"] != "semi":
+        C.pre_computed_distance = False
+        libcall(C.fit, Xt.copy(), Y.copy())
+        sc = models.node_state(C)
+        for f in sc:
+            require(repr(sc[f]) == repr(sb[f]), "switched_off_file_equals_on_the_fly", lambda: "%s/%s: field %s: model with the file switched off %r vs on-the-fly %r" % (case["model"], name, f, sc[f], sb[f]))
+        if Iq:
+            pc = libcall(C.predict, Xq.copy())
+            tc = [list(map(int, v)) for v in pc] if isinstance(pc, tuple) else [int(v) for v in pc]
+            require(tc == tb, "switched_off_file_equals_on_the_fly", "predictions differ: %r vs %r" % (tc, tb))
     # distance matrix a fitted model reports for its own training samples
     G = np.asarray(libcall(B.get_distances))
     nodes = sb["n_nodes"]
